@@ -33,6 +33,10 @@ for d in sorted(os.listdir(S)):
     bnd = [v for v, s in viol if not v.startswith('pymap.')]
     verdict = 'DETECTED' if rc == 1 and viol else ('missed (exit 0)' if rc == 0 else f'exit {rc}')
     how = []
+    if rc == 0 and meta.get('status_on_current_tree'):
+        # a change that a later repair made harmless (its own demo passes with it): exit 0 is the right answer
+        verdict = 'exit 0: harmless on the repaired tree'
+        how.append(meta['status_on_current_tree'])
     if ded:
         how.append('deductive: ' + ', '.join(sorted({v.split('_', 1)[0].split('.')[-1] + '…' + v[-50:] for v in ded})[:2]))
     if bnd:
@@ -60,7 +64,7 @@ if only:
             rows.append((d, prop, 'does not apply to the current tree',
                          meta.get('status_on_current_tree', '') or meta.get('superseded_by', '')))
             continue
-        m = re.match(r'(DETECTED|missed \(exit 0\)|exit -?\d+) by \./check \S+ --tier quick \((.*)\)$', meta.get('detected_by') or '', re.S)
+        m = re.match(r'(DETECTED|missed \(exit 0\)|exit 0: harmless on the repaired tree|exit -?\d+) by \./check \S+ --tier quick \((.*)\)$', meta.get('detected_by') or '', re.S)
         rows.append((d, prop, m.group(1) if m else 'not run', m.group(2) if m else ''))
 if True:
     with open(os.path.join(S, 'MATRIX.md'), 'w') as f:
